@@ -56,7 +56,7 @@ class Node:
         the callbacks of watch_cache, so the recorded cache history is complete whatever frappy does with the failure"""
         sim = self.sim
         excs = {'OSError': OSError, 'KeyError': KeyError, 'ValueError': ValueError, 'RuntimeError': RuntimeError,
-                'ZeroDivisionError': ZeroDivisionError}
+                'ZeroDivisionError': ZeroDivisionError, 'TypeError': TypeError}
         for key, f in sorted(plan.items()):
             mname, pname = key.split('.')
             mobj = self.secnode.modules.get(mname)
@@ -69,6 +69,19 @@ class Node:
                 if count[0] % f['every'] == 0 and not sim.finished:
                     sim.count('fault.parameter-callback-raised')
                     raise excs[f['exc']](f'callback of {key} failed')
+            # applications register plain functions, bound methods, functools.partial objects, callable instances
+            style = f.get('style', 'function')
+            if style == 'partial':
+                import functools
+                flaky = functools.partial(flaky)
+            elif style == 'object':
+                class _Cb:
+                    def __init__(self, fn):
+                        self.fn = fn
+
+                    def __call__(self, *args):
+                        return self.fn(*args)
+                flaky = _Cb(flaky)
             mobj.addCallback(pname, flaky)
 
     def module(self, name):
